@@ -374,4 +374,25 @@ def gen_ctx_case(rng, lps=None, nps=None, max_ops=6, max_rows=30, arm_changes=Tr
         case["n_jobs"] = rng.choice([2, 3]); case["backend"] = "threading"
     if rng.random() < 0.2:
         case["int_ctx"] = True      # training contexts are passed as int64 arrays (the values are integral anyway)
+    if npk in ("radius", "knearest", "lsh", "clusters") and rng.random() < 0.2:
+        # mixed dtypes along the history: the first batches are integer-typed (contexts, and rewards where the policy allows),
+        # later partial_fit batches carry half-integers: the stored history must hold the rows that were passed in
+        case["int_ctx"] = True
+        frac_rs = (not is_lin) and kind not in ("thompson",) and style in ("smallint", "binary", "nonneg_dyadic", "dyadic")
+        if frac_rs:
+            case["int_rs"] = True
+        def half_batch(n):
+            ds, rs, cx = batch(n)
+            cx = [[v + 0.5 if rng.random() < 0.6 else v for v in row] for row in cx]
+            if frac_rs:
+                rs = [float(int(r)) + (0.5 if rng.random() < 0.6 else 0.0) for r in rs]
+            return ds, rs, cx
+        extra = []
+        ds, rs, cx = batch(rng.randint(1, 3)); extra.append(("pfit", ds, [float(int(r)) for r in rs] if frac_rs else rs, cx)); stored += cx
+        for _ in range(rng.randint(1, 2)):
+            ds, rs, cx = half_batch(rng.randint(1, 4)); extra.append(("pfit", ds, rs, cx)); stored += cx
+            extra.append(("pexp", [list(c) for c in cx[:2]] + [list(rng.choice(stored))]))
+        if frac_rs:
+            case["ops"] = [((o[0], o[1], [float(int(r)) for r in o[2]], o[3]) if o[0] in ("fit", "pfit") else o) for o in case["ops"]]
+        case["ops"] = case["ops"] + extra
     return case
